@@ -18,7 +18,9 @@ extern char vs_mkstemp_templates[VS_MAX_TEMPLATES][160];
 int verif_mkstemp(char *tmpl);
 
 /* ---- write (writer.c) ---- */
-enum { VW_FULL = 0, VW_SHORT = 1, VW_EINTR = 2, VW_ERROR = 3, VW_ZERO = 4 };
+enum { VW_FULL = 0, VW_SHORT = 1, VW_EINTR = 2, VW_ERROR = 3, VW_ZERO = 4,
+       VW_DRIBBLE = 5, /* every call in [call, call + arg/1000) accepts only arg%1000 (>= 1) bytes */
+       VW_STORM = 6    /* every call in [call, call + arg) is interrupted (EINTR) */ };
 struct vw_fault { long call; int kind; long arg; /* SHORT: bytes to write; EINTR: repetitions; ERROR: errno */ };
 #define VW_MAX_FAULTS 256
 extern struct vw_fault vw_plan[VW_MAX_FAULTS];
